@@ -161,10 +161,10 @@ def parse_values(R, ctx):
 
 
 def _benign_unwrap(a, call):
-    """`xs.first().unwrap()` inside a branch whose condition tests `xs.len() == 1`."""
+    """`xs.first().unwrap()` / `xs.iter().next().unwrap()` inside a branch whose condition tests `xs.len() == 1`."""
     if call.get("fname") != "unwrap" or not call["args"]:
         return False
-    if not any(y.get("fname") == "first" for y in a.source_calls(call["args"][0])):
+    if not any(y.get("fname") in ("first", "next", "last", "get") for y in a.source_calls(call["args"][0])):
         return False
     child = call
     p = a.parent.get(id(call))
@@ -193,7 +193,10 @@ def worker_errors(R, ctx):
         if not R.require(rid, "anchor:" + p, f is not None, "", "not found"):
             continue
         a = ctx.an.fa(f["path"])
-        bad = [(c.get("fname"), c.get("ln")) for c in thir.fn_refs(f) if c.get("fname") in PANICKY and not (c.get("k") == "Call" and _benign_unwrap(a, c))]
+        # the rule is about failures (Result values): `Option::unwrap` on a value the code has just shown to be present
+        # (first()/next() under a length test) is not an error being dropped
+        bad = [(c.get("fname"), c.get("ln")) for c in thir.fn_refs(f) if c.get("fname") in PANICKY
+               and not ("option::Option" in (c.get("fn") or "") and c.get("k") == "Call" and _benign_unwrap(a, c))]
         R.ob(rid, "%s|no-unwrap" % p.split("::")[-1], not bad, ctx.where(f), "panicking calls: %s" % bad if bad else "none")
         names = {c.get("fname") for c in thir.fn_refs(f)}
         for c in ctors:
